@@ -1145,7 +1145,7 @@ func addDeleteChildren(index configapi.Index, changeValues map[string]configapi.
 		// if this pathValue has to be deleted, then we need to search for all children of this pathValue
 		if changeValue.Deleted {
 			for _, value := range configStore {
-				if strings.HasPrefix(value.Path, changeValue.Path) && !strings.EqualFold(value.Path, changeValue.Path) {
+				if isChildPath(value.Path, changeValue.Path) {
 					value.Index = index
 					value.Deleted = true
 					updChangeValues[value.Path] = value
@@ -1158,4 +1158,10 @@ func addDeleteChildren(index configapi.Index, changeValues map[string]configapi.
 		}
 	}
 	return updChangeValues
+}
+
+// isChildPath reports whether path lies beneath parent at a path element boundary
+func isChildPath(path string, parent string) bool {
+	return len(path) > len(parent) && strings.HasPrefix(path, parent) &&
+		(path[len(parent)] == '/' || path[len(parent)] == '[')
 }
